@@ -2,6 +2,7 @@ CONSTANTS Models = {1, 2} ParamSets = {1, 2} Inits = {1} Seeds = {1, 2} MaxFuncs
 SPECIFICATION ASpec
 INVARIANT NoHiddenState
 PROPERTY HeldChangedByUserOnly
+PROPERTY RejectedCallsLeaveNoTrace
 INVARIANT TermDependsOnArgumentsOnly
 INVARIANT CombinedIsSolveThenSimulate
 CONSTRAINT Bound
